@@ -46,6 +46,12 @@ Definition r64_nonneg (a : Z) : Z :=
 Definition r64 (z : Z) : Z := if z <? 0 then - r64_nonneg (- z) else r64_nonneg z.
 
 (* ---- json.Marshal (None = error) ---- *)
+Fixpoint sequence {A} (l : list (option A)) : option (list A) :=
+  match l with
+  | [] => Some []
+  | x :: r => match x, sequence r with Some a, Some b => Some (a :: b) | _, _ => None end
+  end.
+
 Fixpoint to_json (v : gv) : option jv :=
   match v with
   | VInt z => Some (JInt z)
@@ -56,20 +62,9 @@ Fixpoint to_json (v : gv) : option jv :=
   | VBool b => Some (JBool b)
   | VNil | VNilPtr => Some JNull
   | VPtr x => to_json x
-  | VSlice l =>
-      option_map JArr
-        ((fix go (l : list gv) : option (list jv) :=
-            match l with
-            | [] => Some []
-            | x :: r => match to_json x, go r with Some a, Some b => Some (a :: b) | _, _ => None end
-            end) l)
+  | VSlice l => option_map JArr (sequence (map to_json l))
   | VMap l | VStruct l =>
-      option_map JObj
-        ((fix go (l : list (N * gv)) : option (list (N * jv)) :=
-            match l with
-            | [] => Some []
-            | (k, x) :: r => match to_json x, go r with Some a, Some b => Some ((k, a) :: b) | _, _ => None end
-            end) l)
+      option_map JObj (sequence (map (fun p => option_map (pair (fst p)) (to_json (snd p))) l))
   | VOther => None
   end.
 
